@@ -73,6 +73,7 @@ class Report:
         self.floors = []
         self.selfcheck = []
         self.exhaustive = None
+        self.soft_rules = set()
 
     # -- helpers -------------------------------------------------------------------
     @staticmethod
@@ -97,7 +98,18 @@ class Report:
                                      line=l, detail=detail))
         self.evaluations += 1
 
+    def soften(self, rule):
+        """declare `rule` a strengthening rule: it can only ADD an all-inputs argument on top of an interpreted rule that
+        decides the same construct.  Where it does not recognise the source form, or reads something else than expected,
+        nothing is claimed and a note is written - it never alarms and never fails the run (a behaviour-preserving
+        rewrite must stay silent; the interpreted rule reports real deviations)."""
+        self.soft_rules.add(rule)
+
     def violation(self, rule, construct, subject, message, where=None):
+        if rule in self.soft_rules:
+            f, l = self._loc(where)
+            self.note(f"{rule} (strengthening not claimed) {f}:{l} {construct} [{norm(subject)}]: {message}")
+            return
         f, l = self._loc(where)
         fd = Finding(rule, construct, subject, message, f, l)
         # duplicates (same key) collapse
@@ -116,6 +128,10 @@ class Report:
         return cond
 
     def undecide(self, rule, construct, subject, why, where=None):
+        if rule in self.soft_rules:
+            f, l = self._loc(where)
+            self.note(f"{rule} (strengthening not claimed) {f}:{l} {construct} [{norm(subject)}]: {why}")
+            return
         f, l = self._loc(where)
         self.undecided.append(dict(rule=rule, construct=construct, subject=norm(subject), why=why, file=f, line=l))
         self.obligations.append(dict(rule=rule, construct=construct, subject=norm(subject), verdict="undecided",
@@ -137,7 +153,10 @@ class Report:
     def floor(self, rule, what, found, minimum):
         self.floors.append(dict(rule=rule, what=what, found=found, minimum=minimum))
         if found < minimum:
-            self.error(f"{rule}: instance floor not met for {what}: found {found} < {minimum}")
+            if rule in self.soft_rules:
+                self.note(f"{rule} (strengthening not claimed): only {found} {what} recognised (< {minimum})")
+            else:
+                self.error(f"{rule}: instance floor not met for {what}: found {found} < {minimum}")
 
     # -- finish --------------------------------------------------------------------
     def finish(self, evidence_dir):
